@@ -77,3 +77,16 @@ Definition stmt_value (s : rate_stmt) (T : Q) (v : Q) : Q :=
 (** the property's reading of a window: a bound <= 0 means unbounded *)
 Definition active (tmin tmax T : Q) : bool :=
   (Qle_bool tmin 0 || Qle_bool tmin T) && (Qle_bool tmax 0 || Qlt_b T tmax).
+
+(** statements as the rendered routine may write them: an assignment under any nesting of
+    guards without else branches ("if (A) { if (B) { k[i] = e; } }"); k[] initialised to 0 *)
+Inductive nstmt : Type :=
+| NAssign (i : nat) (e : string)
+| NIf (g : guard) (body : nstmt).
+Fixpoint nstmt_value (s : nstmt) (T v : Q) : Q :=
+  match s with
+  | NAssign _ _ => v
+  | NIf g b => if guard_holds g T then nstmt_value b T v else 0%Q
+  end.
+Fixpoint nstmt_guards (s : nstmt) : list guard :=
+  match s with NAssign _ _ => [] | NIf g b => g :: nstmt_guards b end.
